@@ -6,6 +6,8 @@ from concurrent.futures import ThreadPoolExecutor
 ROOT = os.path.dirname(os.path.dirname(os.path.abspath(__file__)))
 SCR = os.environ.get("VERIF_SCR", "/tmp/mrepo")
 def sh(c): return subprocess.run(c, shell=True, capture_output=True, text=True)
+# a private copy of the checker: the campaign takes a while and the binary may be rebuilt meanwhile
+BIN = tempfile.mkdtemp(prefix="rcxbin") + "/origamilint"; shutil.copy(ROOT + "/bin/origamilint", BIN)
 filt = sys.argv[sys.argv.index("-k") + 1] if "-k" in sys.argv else None
 claimed = [c["property_id"] for c in json.load(open(ROOT + "/MANIFEST.json"))["checks"]]
 sh("git -C /repo worktree prune; [ -d %s ] || git -C /repo worktree add -q --detach %s HEAD" % (SCR, SCR))
@@ -27,7 +29,7 @@ for d in sorted(glob.glob(ROOT + "/refactors/*/")):
     at = "" if base == head else " (judged at %s)" % base
     def one(p):
         v = tempfile.mkdtemp(prefix="rcx"); os.makedirs(v + "/evidence"); shutil.copy(ROOT + "/known_findings.json", v)
-        r = sh("%s/bin/origamilint -prop %s -tier quick -repo %s -verif %s" % (ROOT, p, SCR, v))
+        r = sh("%s -prop %s -tier quick -repo %s -verif %s" % (BIN, p, SCR, v))
         shutil.rmtree(v, ignore_errors=True)
         lines = [l.strip()[:200] for l in (r.stdout + r.stderr).splitlines() if ("rule=" in l and "KNOWN-FINDING" not in l and "NOTE" not in l) or "CHECKER-ERROR" in l]
         return p, r.returncode, lines
@@ -43,4 +45,5 @@ for d in sorted(glob.glob(ROOT + "/refactors/*/")):
                 print("%-8s under %s ALARM%s" % (rid, p, at))
                 for l in lines[:3]: print("      " + l)
 sh("git -C %s checkout -q -- . && git -C %s clean -fdq && git -C %s checkout -q --detach %s" % (SCR, SCR, SCR, head))
+shutil.rmtree(os.path.dirname(BIN), ignore_errors=True)
 print("cross-property runs=%d alarms=%d" % (n, bad))
